@@ -5567,7 +5567,9 @@ class FlowIRConcrete(object):
         try:
             cast(List[str], self._flowir[FlowIR.FieldPlatforms]).append(platform)
             cast(Dict[str, Dict[str, str]], self._flowir[FlowIR.FieldEnvironments])[platform] = {}
-            cast(Dict[str, Dict[str, str]], self._flowir[FlowIR.FieldVariables])[platform] = {}
+            # VV: a platform always has both scopes (this is what loading a FlowIR document guarantees)
+            cast(Dict[str, Dict[str, Any]], self._flowir[FlowIR.FieldVariables])[platform] = {
+                FlowIR.LabelGlobal: {}, FlowIR.LabelStages: {}}
         except Exception as exc:
             raise experiment.model.errors.FlowIRInconsistency(
                 'Failed to add new platform "%s"' % platform, self._flowir, exc
@@ -6298,6 +6300,10 @@ class FlowIRConcrete(object):
         if FlowIR.LabelGlobal not in self._flowir[FlowIR.FieldVariables][platform]:
             self._flowir[FlowIR.FieldVariables][platform][FlowIR.LabelGlobal] = {}
 
+        # VV: The platform may have just been created: queries expect both scopes of a platform to exist
+        if FlowIR.LabelStages not in self._flowir[FlowIR.FieldVariables][platform]:
+            self._flowir[FlowIR.FieldVariables][platform][FlowIR.LabelStages] = {}
+
         self._flowir[FlowIR.FieldVariables][platform][FlowIR.LabelGlobal][variable] = value
 
         self._cache.clear()
@@ -6372,6 +6378,9 @@ class FlowIRConcrete(object):
 
         if FlowIR.LabelStages not in variables:
             variables[FlowIR.LabelStages] = {}
+
+        if FlowIR.LabelGlobal not in variables:
+            variables[FlowIR.LabelGlobal] = {}
 
         stage_vars = variables[FlowIR.LabelStages]
 
